@@ -224,12 +224,18 @@ def submodule_ignores_out():
     return 'filename.replace(".i", ".cpp")' in fi.source
 
 
+def namespace_called_this():
+    out = _py("namespace This { class Foo { void f(std::vector<This> a, This b); }; }\n")
+    return 'This::Foo::Foo' in out
+
+
 WITNESS = {
     'C03-typedef-outside-its-template-namespace': typedef_before_namespace,
     'C09-class-enum-variable-clash': class_enum_variable_clash,
     'C12-two-token-terminals': two_token_terminals,
     'C12-comment-glued-to-default-value': comment_glued_to_default,
     'C01-qualifiers-in-instantiation-list-dropped': qualifiers_in_instantiation_list,
+    'C02-namespace-called-This': namespace_called_this,
 }
 
 
